@@ -937,23 +937,15 @@ example : (columnDfs exIn (fuelBound exIn)).map (fun o => (slice o.lsub 19 22, s
     some ([6, 7, -5], [4, 4], [19, 21]) := by decide +kernel
 example := colDfs_segrep_topo exIn (by decide +kernel) (by decide +kernel)
 
-/-- **C02 (rows appended to `lsub`, array level) — partial.** On every well-formed state the search part of
+/-- **C02 (rows appended to `lsub` = the marked unpivoted rows, array level).** On every well-formed state the search part of
 `[sdcz]column_dfs` (model `search`, before the supernode-boundary part may move the list) leaves
 `lsub[0 .. xlsub[jcol])` untouched and appends `lsub[xlsub[jcol] .. nextl)`: pairwise distinct rows, and a
 row is in that list IF AND ONLY IF it is in range, unpivoted (`perm_r[r] = EMPTY`) and carries this column's
 mark on exit (`marker2[r] = jcol`); the list fits in the capacity `wfIn` asks for (one slot per unpivoted
 row).  This is the array-level refinement of C03's `marker_filter_nodup`.
 
-Not proved (kept as `colDfs_lsub_nodup_goal` below, checked per run by the property-side predicate of the
-`coldfs` driver): that the marked rows are exactly the rows of the column and of the pruned lists of the
-representatives appended to `segrep`, i.e. that the list is exactly the set of unpivoted rows REACHABLE from
-the column.
-
-  colDfs_lsub_nodup_goal :  wfIn i → visited0 i.jcol i.repfnz = [] →
-    ∀ r, r ∈ slice st'.lsub (rd i.xlsub i.jcol) st'.nextl ↔
-      rd i.perm_r r = EMPTY ∧ (r ∈ colRows i.lsubCol ∨
-        ∃ s ∈ dfsPost i.jcol.toNat (adjR i.env i.lsub) roots, r ∈ adjRows i.env i.lsub s) -/
-theorem colDfs_lsub_nodup_partial (i : Input) (h : wfIn i = true) :
+The characterisation of the marked rows as the REACHABLE ones is `colDfs_lsub_nodup` below. -/
+theorem colDfs_lsub_marked (i : Input) (h : wfIn i = true) :
     ∃ st', search i.env (fuelBound i) (colRows i.lsubCol) i.st0 = some st' ∧
       (slice st'.lsub (rd i.xlsub i.jcol) st'.nextl).Nodup ∧
       (∀ r, r ∈ slice st'.lsub (rd i.xlsub i.jcol) st'.nextl ↔
@@ -965,6 +957,25 @@ theorem colDfs_lsub_nodup_partial (i : Input) (h : wfIn i = true) :
 example : (search exIn.env (fuelBound exIn) (colRows exIn.lsubCol) exIn.st0).map
     (fun st => (slice st.lsub 19 st.nextl, slice st.marker 16 24)) = some ([6, 7], [6, -1, 6, -1, 6, 6, 6, 6]) := by
   decide +kernel
-example := colDfs_lsub_nodup_partial exIn (by decide +kernel)
+example := colDfs_lsub_marked exIn (by decide +kernel)
+
+/-- **C02 (rows appended to `lsub` = the unpivoted reachable rows, array level).** On every well-formed
+state (any set of representatives visited on entry) the search part of `[sdcz]column_dfs` appends to `lsub`,
+each ONCE, exactly the unpivoted rows that occur among the column's own rows or in the pruned list
+`lsub[xlsub[t] .. xprune[t])` of a representative `t` the search finished — `nw`, the same list whose reverse
+is appended to `segrep` (`colDfs_eq_recursive`): with no representative visited on entry these are the
+representatives reachable from the column (`colDfs_segrep_topo`), so the list is the set of unpivoted rows
+reachable from the column, without duplicates. -/
+theorem colDfs_lsub_nodup (i : Input) (h : wfIn i = true) :
+    ∃ st' nw, search i.env (fuelBound i) (colRows i.lsubCol) i.st0 = some st' ∧
+      nw ++ visited0 i.jcol i.repfnz =
+        dfsList (adjR i.env i.lsub) i.jcol.toNat ((rootCols i.env (colRows i.lsubCol)).map (repN i.env)) (visited0 i.jcol i.repfnz) ∧
+      (slice st'.lsub (rd i.xlsub i.jcol) st'.nextl).Nodup ∧
+      ∀ r, r ∈ slice st'.lsub (rd i.xlsub i.jcol) st'.nextl ↔
+        (0 ≤ r ∧ r < i.m ∧ rd i.perm_r r = EMPTY ∧
+          (r ∈ colRows i.lsubCol ∨ ∃ t ∈ nw, r ∈ adjRows i.env i.lsub ((t : Nat) : Int))) :=
+  search_lsub_reach h
+
+example := colDfs_lsub_nodup exIn (by decide +kernel)
 
 end Slu.ColDfs
